@@ -47,6 +47,8 @@ def check_C03(report, tier, seed):
     S.suite_decode(report, tier, seed, "C03")
     S.suite_size_limit_headers(report, "C03")
     S.suite_engine_inbound_size(report, "C03")
+    import suites_engine as E0
+    E0.inbound_chunking_family(report, "C03")
     # the decoder inside the engine: hostile bytes on one connection, then well-formed traffic on the next ones
     import suites_engine as E
     walks = E.run_walks(seed, tier, "engine-c03", 120, 3000, adversarial=True)
@@ -106,6 +108,8 @@ def check_C04(report, tier, seed):
     S.pubrel_race_family(report, "C04")
 def check_C05(report, tier, seed):
     engine_check("C05", report, tier, seed)
+    import suites_engine as E0
+    E0.inbound_chunking_family(report, "C05")
     import suites_client as SC
     SC.suite_client_inbound(report, tier, seed, "C05")
     import suites_drivers as SD
@@ -141,7 +145,10 @@ def check_C14(report, tier, seed):
     engine_check("C14", report, tier, seed, snap_after_svc=True)
     S.ping_behind_large_publish_family(report, "C14")
 def check_C15(report, tier, seed): engine_check("C15", report, tier, seed)
-def check_C18(report, tier, seed): engine_check("C18", report, tier, seed)
+def check_C18(report, tier, seed):
+    import suites_engine as S
+    engine_check("C18", report, tier, seed)
+    S.timeout_at_failing_service_family(report, "C18")
 
 
 def check_C17(report, tier, seed):
